@@ -69,7 +69,7 @@ def cases(kinds):
             out.append({"kind": "mutant", "id": "mutant-" + c["id"], "edits": c["edits"], "expect": c["expect"], "what": c.get("what", "")})
     if "benign" in kinds:
         for c in load_py(os.path.join(VERIF, "selftest", "benign.py"), "benign"):
-            out.append({"kind": "benign", "id": "benign-" + c["id"], "edits": c["edits"], "silent": c["silent"], "what": c.get("what", "")})
+            out.append({"kind": "benign", "id": "benign-" + c["id"], "edits": c["edits"], "silent": c["silent"], "may_break": c.get("may_break", []), "what": c.get("what", "")})
     return out
 
 
@@ -91,13 +91,14 @@ def run_case(c):
             if rc != 0:
                 res.update(status="skipped", detail="patch does not apply to the current tree")
                 return res
-        for (path, old, new) in c.get("edits", []):
+        for ed in c.get("edits", []):
+            path, old, new = ed[0], ed[1], ed[2]
             p = os.path.join(d, "Include", path)
             s = open(p).read()
             if s.count(old) < 1:
                 res.update(status="skipped", detail="edit anchor not found in %s" % path)
                 return res
-            open(p, "w").write(s.replace(old, new, 1))
+            open(p, "w").write(s.replace(old, new) if len(ed) > 3 and ed[3] == "all" else s.replace(old, new, 1))
         env = dict(os.environ, QENTEM_REPO=d)
         # the edited tree must still compile (instantiation driver, char width)
         rc, out = sh("clang++ -std=gnu++17 -fsyntax-only -Wno-everything -I%s/Include %s/drivers/inst.cpp" % (d, VERIF))
@@ -117,6 +118,12 @@ def run_case(c):
             fired = sorted(set(re.findall(r"^  (\S+) ", out, re.M)))
             details.append("%s rc=%d fired=%s want=silent" % (pid, rc, fired))
             ok = ok and rc == 0
+        for pid in c.get("may_break") or []:
+            # a correct but unfamiliar form: the check may decline (exit 2, ANALYSIS-BROKEN with a reason) but must not report a violation
+            rc, out = sh("python3 %s/check.py %s --no-evidence" % (VERIF, pid), env=env, cwd=VERIF)
+            reason = re.findall(r"^ANALYSIS-BROKEN \S+ (.*)", out, re.M)
+            details.append("%s rc=%d (%s) want=no violation" % (pid, rc, (reason[0][:80] if reason else "passes")))
+            ok = ok and rc in (0, 2)
         res.update(status="ok" if ok else "UNEXPECTED", detail="; ".join(details))
         if c.get("miss"):
             res["documented_miss"] = c["miss"]
